@@ -52,7 +52,9 @@ Op(o, x) ==
   \* (pause and resume are different command kinds: their order within one window is unspecified - one per window)
   /\ CASE o \in {"pause", "resume"} -> /\ x \in alive /\ x \notin mark /\ "AB" \notin mark /\ pendP[x] = "none"
                                        /\ pendP' = [pendP EXCEPT ![x] = o] /\ UNCHANGED <<fin, mark>>
-       [] o = "finish" -> x \in inA \ fin /\ fin' = fin \cup {x} /\ UNCHANGED <<pendP, mark>>
+       \* (in a scene whose track B persists until its sounds have finished, s2 never finishes: when exactly a
+       \*  persisting track goes once its last sound has is C12's subject)
+       [] o = "finish" -> x \in inA \ fin /\ ~(sc.persistB /\ x = "s2") /\ fin' = fin \cup {x} /\ UNCHANGED <<pendP, mark>>
        [] o = "drop" -> /\ x \notin mark /\ (x = "B" => "B" \in alive) /\ (x = "AB" => "A" \in alive)
                         /\ (x \in {"S", "S2"} => x \in sends)
                         /\ mark' = mark \cup {x} /\ UNCHANGED <<pendP, fin>>
@@ -112,9 +114,11 @@ Chunks2(x, n, acc) ==
 Callback(n) ==
   /\ cb < MaxCb /\ cb' = cb + 1 /\ act' = <<"Callback", n>>
   /\ LET \* ---- on_start_processing: removals first, then commands
-         goneA == "AB" \in mark
-         goneB == "B" \in mark \/ goneA
-         alive1 == (alive \ (IF goneA THEN {"A", "B"} ELSE {})) \ (IF goneB THEN {"B"} ELSE {})
+         \* Track::should_be_removed: handle dropped, (persisting: no sounds left,) and every sub-track removable
+         markedB == "B" \in mark \/ "AB" \in mark
+         goneB == "B" \notin alive \/ (markedB /\ ~(sc.persistB /\ "s2" \in inA))
+         goneA == "AB" \in mark /\ (sc.shape = "chain" => goneB)
+         alive1 == (alive \ (IF goneA THEN {"A"} ELSE {})) \ (IF goneB THEN {"B"} ELSE {})
          inA1 == {s \in inA \ fin : Host(s) = "main" \/ Host(s) \in alive1}
          state1 == TLCEval([t \in Subs |-> IF pendP[t] = "pause" THEN "Paused" ELSE IF pendP[t] = "resume" THEN "Playing" ELSE state[t]])
          sends1 == sends \ mark
